@@ -202,7 +202,8 @@ func drawSimpleSet(t *rapid.T, scale float64, reversed bool) Paths {
 
 func drawC05(t *rapid.T) *C05Case {
 	c := &C05Case{}
-	scale := rapid.SampledFrom([]float64{30, 300, 5000, 1e6, 2e7}).Draw(t, "scale")
+	// the statement sets no magnitude limit: beyond 2^31.5 the squared length of an edge leaves int64
+	scale := rapid.SampledFrom([]float64{30, 300, 5000, 1e6, 2e7, 1 << 32, 1 << 37}).Draw(t, "scale")
 	c.Reversed = rapid.Bool().Draw(t, "reversed")
 	c.Groups = append(c.Groups, drawSimpleSet(t, scale, c.Reversed))
 	if rapid.IntRange(0, 3).Draw(t, "twoGroups") == 0 {
@@ -226,7 +227,8 @@ func drawC05(t *rapid.T) *C05Case {
 	case 0:
 		c.Delta = rapid.SampledFrom([]float64{0.49, -0.49, 0.5, -0.5, 0.1, -0.3, 0}).Draw(t, "deltaExact")
 	default:
-		mag := math.Exp(rapid.Float64Range(math.Log(0.6), math.Log(3*scale)).Draw(t, "logDelta"))
+		// (capped at 6e7: a round join of radius 2^37 has ~10^6 arc steps - a resource-shaped limit)
+		mag := math.Exp(rapid.Float64Range(math.Log(0.6), math.Log(math.Min(3*scale, 6e7))).Draw(t, "logDelta"))
 		if rapid.Bool().Draw(t, "negDelta") {
 			mag = -mag
 		}
